@@ -278,6 +278,26 @@ fn project(reg: &SignedRegister, p: &Pool, f: &Fillers) -> Result<Proj, String> 
     })
 }
 
+/// the replica's CRDT (operations applied in the order the replica holds them: a child may come before its parent)
+fn crdt_of(reg: &SignedRegister) -> RegisterCrdt {
+    let mut crdt = RegisterCrdt::new(*reg.address());
+    for op in reg.ops() {
+        let _ = crdt.apply_op(op.clone());
+    }
+    crdt
+}
+/// current values of a CRDT as pool node ids (+ number of filler values)
+fn crdt_read(crdt: &RegisterCrdt, p: &Pool, f: &Fillers) -> Value {
+    let mut read = vec![];
+    let mut nfr = 0;
+    for (h, _) in crdt.read() {
+        if let Some(n) = p.node_of.get(&h.0) { read.push(*n); } else if f.nodes.contains(&h.0) { nfr += 1; } else { read.push(0); }
+    }
+    read.sort();
+    read.dedup();
+    json!({"read": read, "nfr": nfr, "size": crdt.size()})
+}
+
 fn val_json(ok: bool, reg: &SignedRegister, p: &Pool, f: &Fillers) -> Value {
     match project(reg, p, f) {
         Ok(x) => json!({"ok": ok, "ops": x.ops, "nf": x.nf, "prefix": x.nf == x.nfmax, "read": x.read, "nfr": x.nfr, "rerr": x.rerr}),
@@ -430,7 +450,27 @@ fn run_scenario(w: &World, sc: &Value, run: u64) -> Vec<Value> {
                     }
                     _ => panic!("unknown law {k}"),
                 };
-                emit(json!({"ev": "Law", "k": k, "vm": vm, "a": a_ + 1, "b": b_ + 1, "c": c_ + 1, "x": x, "y": y}), &mut out);
+                // the same law on the CRDT replicas themselves (RegisterCrdt::merge): a + b, b + a, and the CRDT of the
+                // merged operation set must present the same current values
+                let crdt = if k == "comm" && !vm {
+                    let (ca, cb) = (crdt_of(&regs[a_]), crdt_of(&regs[b_]));
+                    let r = guarded(|| {
+                        let mut ab = ca.clone();
+                        ab.merge(cb.clone());
+                        let mut ba = cb.clone();
+                        ba.merge(ca.clone());
+                        let mut u = regs[a_].clone();
+                        let _ = u.merge(&regs[b_]);
+                        (crdt_read(&ab, &p, &fl[a_]), crdt_read(&ba, &p, &fl[a_]), crdt_read(&crdt_of(&u), &p, &fl[a_]))
+                    });
+                    match r {
+                        Ok((ab, ba, u)) => json!({"done": true, "ab": ab, "ba": ba, "u": u}),
+                        Err(_) => json!({"done": true, "ab": {"read": [0], "nfr": 0, "size": 0}, "ba": {"read": [0], "nfr": 1, "size": 0}, "u": {"read": [0], "nfr": 2, "size": 0}}),
+                    }
+                } else {
+                    json!({"done": false, "ab": {"read": [], "nfr": 0, "size": 0}, "ba": {"read": [], "nfr": 0, "size": 0}, "u": {"read": [], "nfr": 0, "size": 0}})
+                };
+                emit(json!({"ev": "Law", "k": k, "vm": vm, "a": a_ + 1, "b": b_ + 1, "c": c_ + 1, "x": x, "y": y, "crdt": crdt}), &mut out);
             }
             _ => emit(json!({"ev": a, "unknown": true}), &mut out),
         }
